@@ -31,6 +31,7 @@ def run(ctx, crate):
     rule_struct_writers(ctx, crate)
     rule_slot_identity(ctx, crate)
     rule_head_only_reap(ctx, crate)
+    rule_removal_keeps_screen_current(ctx, crate)
     D.rule_finished_draws_forced(ctx, crate)
     D.rule_rows_newtype(ctx, crate)
     D.rule_width_source(ctx, crate)
@@ -382,6 +383,39 @@ def rule_head_only_reap(ctx, crate, rule="R-MULTI-HEAD-REAP"):
         zs = [(i, s) for i, j, s in m.assigns() if [f[2] for f in place_fields(s["lhs"])][-1:] == ["is_zombie"]]
         ctx.check(bool(zs) and all(is_const(s["rv"].get("op"), True) for i, s in zs), rule, "mark_zombie-sets-flag", m.name, K.fn_loc(m),
                   "a non-head dropped bar is flagged is_zombie = true", "a non-head dropped bar is not flagged as zombie (it is never reaped)", cfg)
+
+
+def rule_removal_keeps_screen_current(ctx, crate, rule="R-REMOVAL-REPAINTS"):
+    """The in-place reap of a dropped head bar (mark_zombie: `Keep(rows of that bar)` without a draw) presumes that the rows
+    on the terminal are those of the *current* ordering. So whoever takes a bar out of the ordering must leave the screen and
+    its row accounting consistent with the new ordering before returning: every caller of the removal primitive either
+    (a) repaints (calls MultiState::draw after it, on every path), (b) is MultiState::draw itself removing reaped bars after
+    the frame was painted, or (c) releases exactly that bar's rows from the count first (the Keep of the in-place reap).
+    A `remove()` that only edits the ordering leaves a stale frame: dropping the new head bar then keeps the wrong row."""
+    cfg = crate.config
+    prim = crate.find(r"multi::MultiState::remove_idx")
+    if not prim:
+        ctx.lost(rule, cfg, "removal primitive MultiState::remove_idx not found")
+        return
+    n = 0
+    for b in K.lib_bodies(crate):
+        for c in b.calls(r"multi::MultiState::remove_idx"):
+            n += 1
+            draws = {x.bb for x in b.calls(r"multi::MultiState::draw")}
+            paints = {x.bb for x in b.calls(K.DRAWABLE_DRAW.replace("<", "<").replace("'", "'"))} | {x.bb for x in b.calls(r"draw_target::Drawable::<'_>::draw")}
+            keeps = [x for x in b.calls(r"draw_target::ProgressDrawTarget::adjust_last_line_count") if b.dominates(x.bb, c.bb)]
+            if b.name == "multi::MultiState::draw":
+                ok = any(b.dominates(p_, c.bb) for p_ in paints)
+                how = "(b) reaped after the frame was painted"
+            elif keeps:
+                ok, how = True, "(c) the bar's rows are released from the count before it leaves the ordering"
+            else:
+                ok = bool(draws) and b.must_pass([c.target] if c.target is not None else [], draws)
+                how = "(a) the region is repainted before returning"
+            ctx.check(ok, rule, "removal-site:%s" % K.meth(b.name), b.name, c.loc(), "a bar leaves the ordering only when the screen is brought in line: %s" % how,
+                      "%s takes a bar out of the ordering without repainting the region or adjusting the row count: the terminal still shows the old frame, and when the "
+                      "new head bar is dropped the in-place reap keeps the removed bar's row instead of its own (A,B,C; B.finish; remove(A); drop(B); tick(C) shows A, C)" % K.meth(b.name), cfg)
+    ctx.floor(rule, n, 3, cfg, "call sites of MultiState::remove_idx")
 
 
 def rule_multi_arm_unconditional(ctx, crate, rule="R-MULTI-MEMBER-REFRESH"):
